@@ -1,4 +1,4 @@
-"""U12 -- SourceMap::rewrite_with_mapping (in-memory options, no prefix stripping)"""
+"""U12 -- SourceMap::rewrite_with_mapping (in-memory options incl. prefix stripping; not the "~" common prefix, not local files)"""
 import re
 from .common import emit_struct, emit_method, import_method, emit_error_enum, refpat_for
 from .u5_encode import common_types
@@ -10,6 +10,8 @@ T = 'src/types.rs'
 B = 'src/builder.rs'
 
 MUTANTS = [
+    ('types::SourceMap::rewrite_with_mapping', r'builder\.strip_prefixes\(&prefixes\);', ''),
+    ('types::SourceMap::rewrite_with_mapping', r'prefixes\.push\(prefix\.to_string\(\)\);', 'if prefixes.is_empty() { prefixes.push(prefix.to_string()); }'),
     ('types::SourceMap::rewrite_with_mapping', r'self\.get_source_contents\(token\.get_src_id\(\)\)', 'self.get_source_contents(raw.src_id)'),
     ('types::SourceMap::rewrite_with_mapping', r'builder\.add_token\(&token, options\.with_names\)', 'builder.add_token(&token, true)'),
 ]
@@ -36,15 +38,19 @@ def build(u):
         f.text = fxhashmap(f.text, u); f._rescan()
     for g in ['new', 'set_debug_id', 'add_token', 'has_source_contents', 'set_source_contents', 'take_mapping', 'into_sourcemap']:
         import_method(u, B, IMPL, g, 'builder::SourceMapBuilder::' + g, 'u6_builder.ctr', 'u6_builder', prep=bprep)
+    u.spec('strip.rs')
+    u.prelude('shim_strip.rs')
+    f = u.get_fn(B, 'strip_prefixes', impl=IMPL)
+    mono(f, u, 'S', r'AsRef<str>', 'String')
+    from .common import impl_header
+    u.import_fn(f, 'builder::SourceMapBuilder::strip_prefixes', 'u6_builder.ctr', 'u6_builder', wrap=(impl_header(u, B, IMPL, 'strip_prefixes'), '}'))
     for g in ['get_file', 'get_source_contents']:
         import_method(u, T, r'SourceMap\b', g, 'types::SourceMap::' + g, 'u6_root.ctr', 'u6_root')
     u.raw('stub fs / prefixes', '''//@@ prelude rewrite_stubs
-//# assumes: nothing about load_local_source_contents / strip_prefixes / find_common_prefix: the contract of rewrite_with_mapping excludes the options that reach them
+//# assumes: nothing about load_local_source_contents / find_common_prefix: the contract of rewrite_with_mapping excludes the options that reach them (local files, the \"~\" prefix)
 impl SourceMapBuilder {
     #[verifier::external_body]
     pub fn load_local_source_contents(&mut self, base_path: Option<&Path>) -> Result<usize> { unimplemented!() }
-    #[verifier::external_body]
-    pub fn strip_prefixes(&mut self, prefixes: &Vec<String>) { unimplemented!() }
 }
 #[verifier::external_body]
 pub fn verif_find_common_prefix(sources: &Vec<Arc<str>>) -> Option<String> { unimplemented!() }
@@ -59,4 +65,6 @@ pub fn verif_str_eq(a: &str, b: &str) -> (r: bool) ensures r == (a@ == b@) { a =
         refpat_for(f, u)
         u.count('R-shim-call', f.rewrite(r'find_common_prefix\(self\.sources\.iter\(\)\.map\(AsRef::as_ref\)\)', 'verif_find_common_prefix(&self.sources)', expect=1))
         u.count('R-shim-call', f.rewrite(r'\bprefix == "~"', 'verif_str_eq(prefix, "~")', expect=1))
+        # R-type-annot: ghost code in the invariant needs the element type before rustc has inferred it
+        u.count('R-type-annot', f.rewrite(r'let mut prefixes = vec!\[\];', 'let mut prefixes: Vec<String> = vec![];', expect=1))
     emit_method(u, T, r'SourceMap\b', 'rewrite_with_mapping', 'types::SourceMap::rewrite_with_mapping', prep=prep)
